@@ -120,6 +120,23 @@ def loop(s):
     return ('loop', _LOOP_IDS[0], s)
 
 
+def weaken(s):
+    """IR of a suite that may be abandoned after any of its effects: every statement at every depth is optional, an
+    explicit `raise` is an ordinary (empty) step.  `ret` keeps its meaning (a return inside `try` returns)."""
+    t = s[0]
+    if t == 'seq':
+        return ('seq', [weaken(x) for x in s[1]])
+    if t == 'ite':
+        return ite(weaken(s[1]), weaken(s[2]))
+    if t == 'loop':
+        return ('loop', s[1], weaken(s[2]))
+    if t == 'raise':
+        return ('skip',)
+    if t in ('skip', 'ret'):
+        return s
+    return ite(s, ('skip',))
+
+
 # ----------------------------------------------------------------------------- kinds
 BOT, PB, SCK, UNK = 'BOT', 'PB', 'SC', 'UNK'
 
@@ -490,6 +507,29 @@ class FnTranslator:
             if s.decorator_list:
                 return self.conservative(s, 'decorated local function')
             return ('skip',)
+        if isinstance(s, ast.Try) and not getattr(s, 'finalbody', None) is None:
+            # try / except / else / finally.  The body may stop after ANY of its effects (an exception raised by any
+            # statement or call, caught by a handler) and execution then continues: every statement of the body — at
+            # every nesting depth — becomes optional (`weaken`), an explicit `raise` inside the body no longer ends the
+            # analysed path, and each handler, the else-suite and the finally-suite are optional suites executed after
+            # it.  Every real execution (a prefix of the body, then at most one handler or the else-suite, then the
+            # finally-suite) is one of the executions of this IR, so the provenance analysis over-approximates it.
+            parts = [weaken(self.stmts(s.body))]
+            for h in s.handlers:
+                pre = []
+                if h.type is not None:
+                    pre, _, _ = self.expr(h.type)
+                if h.name:
+                    v = self.var_of(h.name)
+                    if v is not None:
+                        pre = pre + [('assign', v, SC)]
+                        self.note_kind(h.name, SCK)
+                parts.append(ite(block(pre + [self.stmts(h.body)]), ('skip',)))
+            if s.orelse:
+                parts.append(ite(self.stmts(s.orelse), ('skip',)))
+            if s.finalbody:
+                parts.append(self.stmts(s.finalbody))
+            return block(parts)
         return self.conservative(s, 'statement %s' % type(s).__name__)
 
     def static_test(self, t):
@@ -1159,7 +1199,7 @@ class FnTranslator:
         if obj is _copy.deepcopy:
             pre, es, ks, _ = self.args_pre(n)
             return pre, (SC if es[0] == SC else ('copyOf', es[0])), ks[0]
-        if obj is _itertools.chain or obj is getattr(_itertools.chain, 'from_iterable', None):
+        if obj is _itertools.chain or obj == getattr(_itertools.chain, 'from_iterable', None):   # (a bound builtin: == , not `is`)
             pre, es, ks, _ = self.args_pre(n)
             return pre, tup(es), PY(UNK)
         if obj is _collections.defaultdict:
